@@ -534,6 +534,11 @@ func GetAttrTypeString(t int, nullable bool) string {
 		str = ""
 	}
 
+	// An invalid type has no name, nullable or not.
+	if str == "" {
+		return ""
+	}
+
 	if nullable {
 		return "*" + str
 	}
